@@ -15,17 +15,9 @@ import (
 
 func seqxParallel(n int, fn func(i, slot int)) { seqx.ParallelFor(n, 0, fn) }
 
-// Small stored shapes (also used by the fetcher checks).
-var Shapes = map[string][]seqx.Op{
-	"chain3":  chain(0, 3),
-	"chain4":  chain(0, 4),
-	"fork":    {{K: "app", A: 0}, {K: "join", A: 1, B: 0}, {K: "app", A: 0}, {K: "app", A: 1}, {K: "join", A: 0, B: 1}},
-	"diamond": {{K: "app", A: 0}, {K: "join", A: 1, B: 0}, {K: "app", A: 0}, {K: "app", A: 1}, {K: "join", A: 0, B: 1}, {K: "app", A: 0}},
-	"heads3":  {{K: "app", A: 0}, {K: "app", A: 1}, {K: "app", A: 2}, {K: "join", A: 0, B: 1}, {K: "join", A: 0, B: 2}},
-	"stale":   {{K: "app", A: 0}, {K: "app", A: 0}, {K: "join", A: 1, B: 0}, {K: "app", A: 1}, {K: "app", A: 0}, {K: "app", A: 0}, {K: "join", A: 0, B: 1}},
-}
-
-var ShapeNames = []string{"chain3", "chain4", "fork", "diamond", "heads3", "stale"}
+// Small stored shapes (shared with the fetcher checks).
+var Shapes = seqx.Shapes
+var ShapeNames = seqx.ShapeNames
 
 var placeVariants = [][]fault{
 	{{"clock", "absent"}}, {{"identity.signatures", "absent"}}, {{"identity.signatures", "null"}}, {{"clock", "null"}},
